@@ -277,12 +277,50 @@ class FakeThread:
             self.k.block(lambda: self.p.done, timeout)
 
 
+class KLock:
+    """threading.Lock for the lock-step world: a thread that finds the lock held parks in the kernel (a real Lock would
+    block the only running OS thread forever)"""
+
+    def __init__(self, k):
+        self.k = k
+        self.owner = None
+
+    def acquire(self, blocking=True, timeout=-1):
+        if self.owner is None:
+            self.owner = self.k.cur
+            return True
+        if not blocking:
+            return False
+        ok = self.k.block(lambda: self.owner is None, None if timeout is None or timeout < 0 else timeout)
+        if ok and self.owner is None:
+            self.owner = self.k.cur
+            return True
+        return False
+
+    def release(self):
+        if self.owner is None:
+            raise RuntimeError("release unlocked lock")
+        self.owner = None
+
+    def locked(self):
+        return self.owner is not None
+
+    def __enter__(self):
+        self.acquire()
+        return self
+
+    def __exit__(self, *a):
+        self.release()
+
+
 class FakeThreading:
     def __init__(self, k):
         self.k = k
-        self.Lock = _th.Lock
         self.RLock = _th.RLock
         self.current_thread = _th.current_thread
+
+    def Lock(self):
+        return KLock(self.k)
 
     def Event(self):
         return FakeEvent(self.k)
@@ -594,6 +632,7 @@ _ORIG = {}
 
 
 def install(k, net, tls=False):
+    import websocket._abnf as B
     import websocket._app as A
     import websocket._core as C
     import websocket._dispatcher as D
@@ -602,7 +641,7 @@ def install(k, net, tls=False):
     if not _ORIG:
         _ORIG.update(dict(H_socket=H.socket, A_time=A.time, D_time=D.time, C_time=C.time, D_sel=D.selectors,
                           S_sel=S.selectors, A_threading=A.threading, A_inspect=A.inspect, D_inspect=D.inspect,
-                          H_ssl=H._ssl_socket, A_sel=getattr(A, "selectors", None)))
+                          H_ssl=H._ssl_socket, A_sel=getattr(A, "selectors", None), C_threading=C.threading, B_Lock=B.Lock))
     H.socket = FakeSocketModule(net)
     ft = FakeTime(k)
     A.time = ft
@@ -612,6 +651,8 @@ def install(k, net, tls=False):
     D.selectors = fs
     S.selectors = fs
     A.threading = FakeThreading(k)
+    C.threading = FakeThreading(k)  # WebSocket.lock / readlock
+    B.Lock = lambda: KLock(k)  # frame_buffer.lock
     A.inspect = FakeInspect
     D.inspect = FakeInspect
     if tls:
@@ -625,11 +666,14 @@ def install(k, net, tls=False):
 def uninstall():
     if not _ORIG:
         return
+    import websocket._abnf as B
     import websocket._app as A
     import websocket._core as C
     import websocket._dispatcher as D
     import websocket._http as H
     import websocket._socket as S
+    C.threading = _ORIG["C_threading"]
+    B.Lock = _ORIG["B_Lock"]
     H.socket = _ORIG["H_socket"]
     A.time = _ORIG["A_time"]
     D.time = _ORIG["D_time"]
